@@ -216,7 +216,8 @@ def column_info_from_node(root):
 
 
 def ast_parse_select_expression_to_column_infos(select_expression):
-    root = ast.parse(select_expression)
+    # The expression is parsed inside a list display, the way the main loop evaluates it: a single parenthesized tuple such as `(a1, a2)` is one output column, not two.
+    root = ast.parse('[' + select_expression + ']')
     children = list(ast.iter_child_nodes(root))
     if 'body' not in root._fields:
         raise RbqlParsingError('Unable to parse SELECT expression (error code #117)') # Should never happen
@@ -225,9 +226,9 @@ def ast_parse_select_expression_to_column_infos(select_expression):
     root = children[0]
     children = list(ast.iter_child_nodes(root))
     if len(children) != 1:
-        raise RbqlParsingError('Unable to parse SELECT expression (error code #119): "{}"'.format(select_expression)) # This can be triggered with `SELECT a = 100`
+        raise RbqlParsingError('Unable to parse SELECT expression (error code #119): "{}"'.format(select_expression)) # Should never happen
     root = children[0]
-    if isinstance(root, ast.Tuple):
+    if isinstance(root, ast.List):
         column_expression_trees = root.elts
         column_infos = [column_info_from_node(ct) for ct in column_expression_trees]
     else:
